@@ -29,7 +29,7 @@ def cube(rng, tier):
     return lines, meta
 
 def run(tier, seed):
-    return cpucheck.run(PROP, tier, seed, cpucheck.std_gen(FAMS, per_quick=6, per_thorough=400),
+    return cpucheck.run(PROP, tier, seed, cpucheck.std_gen(FAMS, per_quick=6, per_thorough=1500),
                         keep=cpucheck.fields("A", "F", "B", "C", "D", "E", "H", "L", "IX", "IY", "event", "accesses"),
                         search_lines=cube,
                         rule="every encoding of the ALU / INC / DEC / rotate / shift / BIT / SET / RES families x structured random states; "
